@@ -879,7 +879,28 @@ def attached_play(spec, init, ops):
     return None
 
 
-def attached_stream(ctx):
+def subscription_table(spec, init, ops):
+    """which lasers are registered on which profile's notifier after the (re)assignments of a history (bare lasers;
+    the subscription protocol does not depend on plasma / models)"""
+    from raysect.optical import World
+    from cherab.core.laser.node import Laser
+    world = World()
+    profs = [construct(c, a) for c, a in spec]
+    lasers = [Laser(parent=world) for _ in init]
+    pairs = [(i, p_) for i, p_ in enumerate(init)] + [(o[1], o[2]) for o in ops if o[0] == 'attach']
+    for l_, p_ in pairs:
+        lasers[l_].laser_profile = profs[p_]
+    out = []
+    for pr in profs:
+        regs = []
+        for ref in pr.notifier._callbacks_refs:
+            inst = ref[0]() if isinstance(ref, tuple) else None
+            regs.append(str(next((i for i, la in enumerate(lasers) if la is inst), -1)))
+        out.append(','.join(regs))
+    return pairs, '|'.join(out) + '|'
+
+
+def attached_stream(ctx, st=None, record=None):
     """S: the geometry clause for profiles *attached to Laser nodes*: one to three live lasers in one world, profiles
     shared between lasers / distinct with equal parameters / different; profile setters interleaved with
     (re)assignments `laser.laser_profile = same / other / shared profile` and importance changes."""
@@ -928,6 +949,16 @@ def attached_stream(ctx):
                  'profiles %r initially attached %r, operations %r: %s' % ([c for c, _ in spec], init, ops, bad[2]),
                  dict(kind='attached', spec=[[c, a] for c, a in spec], init=list(init), ops=[list(o) for o in ops]))
 
+    def k_subs(spec, init, ops):
+        # K: the subscription state machine of the model (Model/Laser.lean `attachAll`) against the notifiers
+        if st is None:
+            return
+        pairs, tab = subscription_table(spec, init, ops)
+        st.add(['subs %d %s' % (len(spec), ' '.join('%d %d' % pr_ for pr_ in pairs))],
+               lambda o, tab=tab: None if o[0] == tab else 'subscriptions model=%s impl=%s' % (o[0], tab),
+               'subscriptions', dict(profiles=[c for c, _ in spec], attach=pairs))
+        record['traces'] += 1
+
     def make_spec():
         """p0, p1 = distinct object with the parameters of p0, p2 = another class / other parameters"""
         c0 = rng.choice(PROFILES)
@@ -974,6 +1005,7 @@ def attached_stream(ctx):
         spec = make_spec()
         ops = [concrete(spec, o) for o in q]
         report(spec, init, ops)
+        k_subs(spec, init, ops)
         ctx.case(key=('attached', init) + tuple(o[:3] for o in q),
                  sample=dict(profiles=[c for c, _ in spec], init=init, ops=ops) if rng.random() < 0.01 else None)
     ctx.count('attached:enumerated', len(plans))
@@ -993,6 +1025,7 @@ def attached_stream(ctx):
                 pr = rng.choice(['laser_length', 'laser_length', 'laser_radius', 'laser_radius'] + PARAMS[spec[i][0]])
                 ops.append(('set', i, pr, gen_value(rng, spec[i][0], pr)))
         report(spec, init, ops)
+        k_subs(spec, init, ops)
         ctx.case(key=('attached-random', init, tuple(kinds(init, ops))))
         ctx.count('attached:random')
 
@@ -1445,7 +1478,7 @@ def run(ctx):
     erf_stream(ctx, st, record)
     import traceback
     for name, fn in (('targeted', lambda: targeted(ctx, st, record, exp)), ('defaults', lambda: defaults_stream(ctx, st, record, dflt)),
-                     ('histories', lambda: histories(ctx, st, record)), ('attached', lambda: attached_stream(ctx)), ('consumer', lambda: consumer_stream(ctx, st, record, table)),
+                     ('histories', lambda: histories(ctx, st, record)), ('attached', lambda: attached_stream(ctx, st, record)), ('consumer', lambda: consumer_stream(ctx, st, record, table)),
                      ('segments', lambda: segments_stream(ctx, st, record)), ('spectra', lambda: spectra_stream(ctx, st, record, table)),
                      ('integrals', lambda: integrals(ctx))):
         try:
